@@ -167,7 +167,12 @@ fn handle_put<R: Read, W: Write>(
         }
         tf.sync_all()?;
     }
-    // Integrity: the streamed content must match the hash the client claimed.
+    // Integrity: the streamed content must match the hash AND the length the client
+    // claimed (a stream that ended early must never be committed).
+    if hasher.count() != len {
+        let _ = std::fs::remove_file(&tmp);
+        return write_frame(w, &Response::Error("content length mismatch".into()));
+    }
     if *hasher.finalize().as_bytes() != hash {
         let _ = std::fs::remove_file(&tmp);
         return write_frame(w, &Response::Error("content hash mismatch".into()));
